@@ -16,6 +16,8 @@ PROP = {
     "streams": [
         # table numbering of each solstice year through the API (harness) vs the numbering the rule prescribes (driver, spec only)
         {"name": "c04.years", "model": False},
+        # the same lines computed after a battery of unusual calls about each year (history must not matter)
+        {"name": "c04.years.hist", "model": False},
     ],
     "exhaustive": True,
     "rule": "c04.years: for every solstice year 27..9999 (238..240 excluded by the property) the signed month numbers of the lunations from the "
